@@ -39,7 +39,7 @@ GlobalFieldMinV(f) ==
     [] f = "CreatorAddress" -> 3
     [] OTHER -> Never
 
-AppOnlyKinds == {"GGet", "GPut", "GDel", "Log", "MV", "MVHas", "MVVal", "ItxBegin", "ItxNext", "ItxField", "ItxSubmit"}
+AppOnlyKinds == {"GGet", "GPut", "GDel", "LGet", "LPut", "LDel", "Log", "MV", "MVHas", "MVVal", "ItxBegin", "ItxNext", "ItxField", "ItxSubmit"}
 AppOnlyGlobals == {"LogicSigVersion", "Round", "LatestTimestamp", "CurrentApplicationID", "CreatorAddress"}
 
 OwnMinV(node) ==
@@ -54,7 +54,7 @@ OwnMinV(node) ==
     [] k \in {"While", "For", "Break", "Continue"} -> 4      \* backward branches exist from version 4
     [] k = "Substring" -> 2
     [] k \in {"Extract", "Suffix"} -> 5
-    [] k \in {"GGet", "GPut", "GDel"} -> 2
+    [] k \in {"GGet", "GPut", "GDel", "LGet", "LPut", "LDel"} -> 2
     [] k = "Log" -> 5
     [] k = "WideRatio" -> 5
     [] k = "Call" -> 4
